@@ -94,6 +94,7 @@ struct Builder {
     std::deque<std::unique_ptr<Value<Char_T>>> targets;
     std::deque<jm::Node>                       target_models;
     static constexpr int                       W = int(sizeof(Char_T));
+    int                                        alias{0};
 
     Builder(jm::Entropy &en, Flags &f) : e(en), fl(f) {}
 
@@ -170,7 +171,13 @@ struct Builder {
                                             9007199254740993.0, 0.1, 1e21, 1e-7, 123456789012345678.0, 5.0, -7.0, 0.30000000000000004};
                 double               d;
                 if (e.chance(40)) {
-                    d = ds[e.below(17)];
+                    const uint32_t di = e.below(17);
+                    d                 = ds[di];
+                    if (alias == 2 && (di & 1) != 0) {
+                        // short decimals from 1e17 up (k x 10^e whose k x 5^e needs 53 bits or about that: the parser's exact / rounded switch)
+                        static const double big[] = {2e22, 3e22, 1.7e22, 1.2345678901234e17, 2.500000000001e17, 2.9515e20, 9e22, 1e23};
+                        d                         = big[(di >> 1) % 8];
+                    }
                 } else {
                     uint64_t b = (uint64_t(e.below(0x7FF)) << 52) | (e.u64() & 0xFFFFFFFFFFFFFULL) | (e.chance(30) ? 0x8000000000000000ULL : 0);
                     memcpy(&d, &b, 8);
@@ -386,6 +393,7 @@ void run_width(const Case &c, pbt::Ctx &ctx) {
     jm::Entropy      e(c.bytes);
     Flags            fl;
     Builder<Char_T>  b(e, fl);
+    b.alias = c.alias;
     // a few pointer targets first (simple, pointer-free)
     unsigned nt = e.below(3);
     for (unsigned i = 0; i < nt; ++i) {
